@@ -812,6 +812,20 @@ def work_c20(prop, tier, seed, widx, nworkers):
                 for _, m in n.get('params', []):
                     if m[0] == 'sw' and rng.random() < 0.7:
                         m[1] = None
+        elif rng.random() < 0.3:
+            # a named switch that carries the same NAME as a processor feeding the same consumer: switch__<name> and
+            # processor__<name> are different nodes, their entries and edges stay distinct
+            for n in prog['nodes'].values():
+                ins = [m[1] for _, m in n.get('params', []) if m[0] == 'in' and prog['nodes'][m[1]].get('nm', 'id') == 'id'
+                       and not prog['nodes'][m[1]].get('generic_of')]
+                sws = [m for _, m in n.get('params', []) if m[0] == 'sw' and m[1] is not None]
+                if ins and sws:
+                    old, new = sws[0][1], rng.choice(ins)
+                    for n2 in prog['nodes'].values():
+                        for _, m in n2.get('params', []):
+                            if m[0] == 'sw' and m[1] == old:
+                                m[1] = new
+                    break
         prog['tags'] = sorted(gen.analyze(prog) | viewer_tags(prog))
         case = {'prog': prog, 'what': 'c20'}
         fs = _c20_one(prog)
